@@ -89,7 +89,7 @@ class Rotate(Relation):
 
     def strategy(self, tier):
         sz = G.sizes(1e-2, 1e4)
-        leaf = G.simple_pixel(sz)
+        leaf = G.simple_pixel(sz, max_ratio=1e9)
         near = G.simple_pixel(G.sizes(0.5, 50.0), cmode='near')
         c1 = G.coord1('any')
         return st.fixed_dictionaries({
